@@ -174,6 +174,28 @@ func c04Violate(e *Env, clause, msg string) {
 	e.Violate("C04", clause, msg)
 }
 
+// the exported sentinel an operator fails with when its input has no (such) element: callers tell the
+// failures apart with errors.Is, so the error must be that very sentinel (two of them have the same text)
+var c04Sentinels = map[string]error{"Head": ro.ErrHeadEmpty, "Tail": ro.ErrTailEmpty, "First": ro.ErrFirstEmpty, "Last": ro.ErrLastEmpty, "ElementAt": ro.ErrElementAtNotFound}
+
+func c04Sentinel(e *Env, sc *Scn, rec *Rec) {
+	if len(sc.Stages) != 1 || rec.Terminal() != 'E' {
+		return
+	}
+	want, ok := c04Sentinels[sc.Stages[0].Op]
+	if !ok {
+		return
+	}
+	err := rec.Events[len(rec.Events)-1].Err
+	var se *scriptErr
+	if errors.As(err, &se) {
+		return // the source's own error, forwarded
+	}
+	if !errors.Is(err, want) {
+		c04Violate(e, "sentinel:"+sc.Stages[0].Op, fmt.Sprintf("%s over [%s] failed with %q, which is not (errors.Is) the operator's exported sentinel %q", c04DescribeStages(sc), traceN(scriptToN(sc.Sources[0].Script)), err, want))
+	}
+}
+
 // c04Observe subscribes once and runs to quiescence; ok=false when the step cap was hit.
 func c04Observe(e *Env, o ro.Observable[int], name string) (*Rec, *SubHandle, bool) {
 	rec := e.NewRec(name)
@@ -207,6 +229,7 @@ func runC04Pipeline(e *Env) {
 	}
 	got := c04RecN(rec)
 	if memberN(want, got) {
+		c04Sentinel(e, sc, rec)
 		// Ints[again]: the same pipeline value is subscribed once more while its source plays another
 		// input: the documented meaning applies to every subscription, whatever an earlier one saw
 		variant := c12Variant(&Scn{Sources: sc.Sources, Ints: map[string]int{"vary": sc.Int("again", 0)}})
